@@ -374,6 +374,22 @@ def run(ctx):
                [("shim.contains_nd", lambda c: [enc_arr(c["n1"]), enc_vec(list(c["p"]))], whole),
                 ("hazmat.contains_nd", lambda c: [enc_arr(c["n1"]), enc_vec(list(c["p"]))], whole)],
                mk_coq(lambda c: "py_contains_nd %s %s" % (mat(c["n1"]), v2(c["p"]))), HEADER, "chk_val", judge=judge_contains, nontrivial=nt)
+    # contains_nd in dimensions 1..4: the point is inside the box in every coordinate but (possibly) one, any of them
+    cd = []
+    for _ in range(60 if ctx.quick() else 1500):
+        dim = ctx.rng.randint(1, 4)
+        n = ctx.rng.randint(2, 5)
+        net = [[F(ctx.rng.randint(0, 4)) for _ in range(n)] for _ in range(dim)]
+        p = [F(ctx.rng.randint(int(2 * min(r)), int(2 * max(r))), 2) for r in net]
+        if ctx.rng.random() < 0.6:
+            k_ = ctx.rng.randrange(dim)
+            p[k_] = max(net[k_]) + F(1, 2) if ctx.rng.random() < 0.5 else min(net[k_]) - F(1, 2)
+        cd.append({"n1": net, "p": tuple(p)})
+    correspond(ctx, "contains_nd_dimensions", cd,
+               [("shim.contains_nd", lambda c: [enc_arr(c["n1"]), enc_vec(list(c["p"]))], whole),
+                ("hazmat.contains_nd", lambda c: [enc_arr(c["n1"]), enc_vec(list(c["p"]))], whole)],
+               mk_coq(lambda c: "py_contains_nd %s (vq_list %s)" % (mat(c["n1"]), coq_list(list(c["p"])))), HEADER, "chk_val",
+               judge=judge_contains, nontrivial=nt)
     correspond(ctx, "bbox_intersect", bx,
                [("shim.bbox_intersect", lambda c: [enc_arr(c["n1"]), enc_arr(c["n2"])], whole),
                 ("hazmat.bbox_intersect", lambda c: [enc_arr(c["n1"]), enc_arr(c["n2"])], whole)],
